@@ -273,6 +273,8 @@ EXPORT char *_strtok_s_chk(char *restrict dest, rsize_t *restrict dmaxp,
          */
         slen = STRTOK_DELIM_MAX_LEN;
         pt = delim;
+        if (*pt == '\0') /* no delimiters at all: the token starts here */
+            ptoken = dest;
         while (*pt != '\0') {
 
             if (unlikely(slen == 0)) {
